@@ -56,6 +56,9 @@ inductive XDecl where
   | fmtStr (kind : String) (strict : Bool)
   /-- `AnyOf[X, NoneField]` -/
   | opt (x : XDecl)
+  /-- `AnyOf[X₁, …, Xₙ]` (NoneField = `base .noneF`): the first option that accepts wins, in the constructor, in the
+      serializer (after the option's `_validate`, where it has one) and in the deserializer alike -/
+  | anyOf (xs : List XDecl)
   | seqOf (k : SeqKind) (x : XDecl)
   | setOf (x : XDecl)
   /-- `Map[String(), X]` -/
@@ -64,13 +67,22 @@ inductive XDecl where
   | tuplePos (xs : List XDecl)
   /-- a Structure class (ClassReference when nested) -/
   | struct (c : ClassOpts) (fields : List (String × XDecl))
+  /-- a Structure class with `_enable_undefined_value = True`: an attribute explicitly set to None is not the same
+      as one left out (Undefined): it is serialized as null, and a null in a document is handed to the field -/
+  | structU (c : ClassOpts) (fields : List (String × XDecl))
 deriving Inhabited
 
 /-! ### shape functions of the extension leaves -/
 
 /-- an error that is not an exception class of the real code but the model's "not modelled here" marker -/
+def xOutsideMarkers : List String :=
+  ["outside-model:decimal-str", "outside-model:decimal-seq", "outside-model:decimal-ser",
+   "outside-model:foreign-member", "outside-model:timestamp", "outside-model:temporal-conversion",
+   "outside-model:typedfield-from-list", "outside-model:typedfield-from-dict", "outside-model:mixin-raw-value",
+   "outside-model:untyped-structure", "outside-model:float-key", "outside-model:foreign-instance"]
+
 def xOutside : ErrCls → Bool
-  | .other n => n.startsWith "outside-model"
+  | .other n => xOutsideMarkers.contains n     -- (every "outside-model:…" marker the models use; `==` on strings reduces in the kernel)
   | _ => false
 
 /-- `Decimal(value)`: numbers (bool included) convert exactly; None / dict raise TypeError; a str goes
@@ -204,6 +216,40 @@ def xOptOf (r : R PyVal) (v : PyVal) : R PyVal :=
   | .ok y => .ok y
   | .error e => if xOutside e then .error e else if v.isNone then .ok .none else .error .valueErr
 
+/-- one step of a first-match scan over options: the option's result if it accepts, the model's "not modelled"
+    marker at once, else the rest -/
+def xFirst (r : R PyVal) (rest : R PyVal) : R PyVal :=
+  match r with
+  | .ok y => .ok y
+  | .error e => if xOutside e then .error e else rest
+
+/-- the `_validate` that serialize_multifield_wrapper runs before it tries an option (`true` where the field has
+    none: DateField / DateTime; the collections only look at the container type) -/
+def shallowOkX (XO : XOracles) : XDecl → PyVal → Bool
+  | .base f, v => shallowOk XO.base f v
+  | .decimal o, v => (match v.asNum with | some q => numOk { o with sign := .any } q | none => false)
+  | .enumVal cls ms mx, v => (vEnumVal cls ms mx v).toBool
+  | .enumName cls ms mx, v => (vEnumVal cls ms mx v).toBool
+  | .temporal _ _ _, _ => true
+  | .fmtStr _ _, v => (match v with | .str _ => true | _ => false)
+  | .opt _, _ => true
+  | .anyOf _, _ => true
+  | .seqOf k _, v => (seqElems k v).isSome
+  | .setOf _, v => (match v with | .set _ _ => true | _ => false)
+  | .mapStr _, v => (match v with | .dict _ => true | _ => false)
+  | .tuplePos _, v => (match v with | .tuple _ => true | _ => false)
+  | .struct c _, v => (vClassRef c v).toBool
+  | .structU c _, v => (vClassRef c v).toBool
+
+/-- `serialize_internal` of an instance of an `_enable_undefined_value` class: attributes holding None are written (as null) -/
+def sInstU (c : ClassOpts) (v : PyVal) (g : List (String × PyVal) → R (List (PyVal × PyVal))) : R PyVal :=
+  match v with
+  | .none => .ok .none
+  | .inst cn attrs =>
+    if !(cn == c.name || c.accepts.contains cn) then .error (.other "outside-model:foreign-instance")
+    else bindE (g attrs) fun r => .ok (.dict r)
+  | _ => .error (.other "AttributeError")
+
 /-! ### the recursive dispatchers -/
 
 mutual
@@ -216,6 +262,7 @@ def validateX (XO : XOracles) : XDecl → PyVal → R PyVal
   | .enumName cls ms mx, v => vEnumVal cls ms mx v
   | .fmtStr kind _, v => vFmtStr XO kind v
   | .opt x, v => xOptOf (validateX XO x v) v
+  | .anyOf xs, v => validateAnyX XO xs v
   | .seqOf k x, v => vSeq k {} (fun _ => true) (mapE (validateX XO x)) v
   | .setOf x, v => vSet false {} (mapE (validateX XO x)) v
   | .mapStr x, v =>
@@ -224,12 +271,18 @@ def validateX (XO : XOracles) : XDecl → PyVal → R PyVal
       bindE (validateX XO x kv.2) fun v' => .ok (k', v'))) v
   | .tuplePos xs, v => vTuple false (fun ys => xs.length == ys.length) (validateZipX XO xs) v
   | .struct c _, v => vClassRef c v
+  | .structU c _, v => vClassRef c v
 termination_by structural x _ => x
 def validateZipX (XO : XOracles) : List XDecl → List PyVal → R (List PyVal)
   | [], ys => .ok ys
   | _ :: _, [] => .ok []
   | x :: xs, y :: ys =>
     bindE (validateX XO x y) fun z => bindE (validateZipX XO xs ys) fun zs => .ok (z :: zs)
+termination_by structural xs _ => xs
+/-- AnyOf: the first accepting option wins and its stored value is kept -/
+def validateAnyX (XO : XOracles) : List XDecl → PyVal → R PyVal
+  | [], _ => .error .valueErr
+  | x :: xs, v => xFirst (validateX XO x v) (validateAnyX XO xs v)
 termination_by structural xs _ => xs
 end
 
@@ -248,6 +301,7 @@ def validateFieldsX (XO : XOracles) (c : ClassOpts) (kw : List (String × PyVal)
 def constructX (XO : XOracles) (cls : XDecl) (kw : List (String × PyVal)) : R PyVal :=
   match cls with
   | .struct c fields => vConstruct c (fields.map (·.1)) kw (validateFieldsX XO c kw fields)
+  | .structU c fields => vConstruct c (fields.map (·.1)) kw (validateFieldsX XO c kw fields)
   | _ => .error (.other "not-a-class")
 
 mutual
@@ -260,6 +314,7 @@ def serX (XO : XOracles) : XDecl → PyVal → R PyVal
   | .enumName _ _ _, v => sEnumName v
   | .fmtStr _ _, v => sScalar v
   | .opt x, v => if v.isNone then .ok .none else serX XO x v
+  | .anyOf xs, v => serAnyX XO xs v
   | .seqOf _ x, v => sSeq (mapE (serX XO x)) v
   | .setOf x, v => sSeq (mapE (serX XO x)) v
   | .mapStr x, v =>
@@ -269,11 +324,19 @@ def serX (XO : XOracles) : XDecl → PyVal → R PyVal
   | .struct c fields, v =>
     sInst c v (mapE (fun (a : String × PyVal) =>
       bindE (serFieldX XO fields a.1 a.2) fun j => .ok (PyVal.str a.1, j)))
+  | .structU c fields, v =>
+    sInstU c v (mapE (fun (a : String × PyVal) =>
+      bindE (serFieldX XO fields a.1 a.2) fun j => .ok (PyVal.str a.1, j)))
 termination_by structural x _ => x
 def serZipX (XO : XOracles) : List XDecl → List PyVal → R (List PyVal)
   | [], ys => serAnyList ys
   | _ :: _, [] => .ok []
   | x :: xs, y :: ys => bindE (serX XO x y) fun z => bindE (serZipX XO xs ys) fun zs => .ok (z :: zs)
+termination_by structural xs _ => xs
+/-- `serialize_multifield_wrapper`: the first option whose `_validate` and serialization succeed -/
+def serAnyX (XO : XOracles) : List XDecl → PyVal → R PyVal
+  | [], _ => .error .valueErr
+  | x :: xs, v => if shallowOkX XO x v then xFirst (serX XO x v) (serAnyX XO xs v) else serAnyX XO xs v
 termination_by structural xs _ => xs
 def serFieldX (XO : XOracles) : List (String × XDecl) → String → PyVal → R PyVal
   | [], _, v => serAny v
@@ -291,6 +354,7 @@ def deserX (XO : XOracles) (opts : DeserOpts) (ign : Bool) : XDecl → PyVal →
   | .enumName cls ms mx, v => if v.isNone && ign then .ok v else dEnumName cls ms mx v
   | .fmtStr _ strict, v => if v.isNone && ign then .ok v else dFmtStr strict v
   | .opt x, v => if v.isNone && ign then .ok v else xOptOf (deserX XO opts false x v) v
+  | .anyOf xs, v => if v.isNone && ign then .ok v else deserAnyX XO opts xs v
   | .seqOf k x, v =>
     if v.isNone && ign then .ok v
     else dSeq (fun ys => .ok (mkSeq k ys)) (fun ys => toValueErr (mapE (deserX XO opts false x) ys)) v
@@ -312,12 +376,24 @@ def deserX (XO : XOracles) (opts : DeserOpts) (ign : Bool) : XDecl → PyVal →
       bindE (bindE (deserFieldsX XO opts c kw fields)
         (fun args => .ok (deserExtras opts c (fields.map (·.1)) kw ++ args))) fun args =>
       vConstruct c (fields.map (·.1)) args (validateFieldsX XO c args fields)
+  | .structU c fields, v =>
+    if v.isNone && ign then .ok v
+    else dClassRef v (!keepsExtras opts c)
+      (fun kw => bindE (deserFieldsXU XO opts c kw fields) fun _ => .ok ()) fun kw =>
+      bindE (bindE (deserFieldsXU XO opts c kw fields)
+        (fun args => .ok (deserExtras opts c (fields.map (·.1)) kw ++ args))) fun args =>
+      vConstruct c (fields.map (·.1)) args (validateFieldsX XO c args fields)
 termination_by structural x _ => x
 def deserZipX (XO : XOracles) (opts : DeserOpts) : List XDecl → List PyVal → R (List PyVal)
   | [], ys => .ok ys
   | _ :: _, [] => .error .valueErr
   | x :: xs, y :: ys =>
     bindE (deserX XO opts false x y) fun z => bindE (deserZipX XO opts xs ys) fun zs => .ok (z :: zs)
+termination_by structural xs _ => xs
+/-- AnyOf: the first option that deserializes -/
+def deserAnyX (XO : XOracles) (opts : DeserOpts) : List XDecl → PyVal → R PyVal
+  | [], _ => .error .valueErr
+  | x :: xs, v => xFirst (deserX XO opts false x v) (deserAnyX XO opts xs v)
 termination_by structural xs _ => xs
 /-- `construct_fields_map` over the declared fields: a null is the same as an absent key -/
 def deserFieldsX (XO : XOracles) (opts : DeserOpts) (c : ClassOpts) (doc : List (String × PyVal)) :
@@ -332,6 +408,18 @@ def deserFieldsX (XO : XOracles) (opts : DeserOpts) (c : ClassOpts) (doc : List 
       | .ok y => bindE (deserFieldsX XO opts c doc rest) fun ys => .ok ((name, y) :: ys)
       | .error e => .error e
 termination_by structural fs => fs
+/-- the same for an `_enable_undefined_value` class: a null is processed like any other value -/
+def deserFieldsXU (XO : XOracles) (opts : DeserOpts) (c : ClassOpts) (doc : List (String × PyVal)) :
+    List (String × XDecl) → R (List (String × PyVal))
+  | [] => .ok []
+  | (name, x) :: rest =>
+    match lookup name doc with
+    | none => deserFieldsXU XO opts c doc rest
+    | some v =>
+      match deserX XO opts c.ignoreNone x v with
+      | .ok y => bindE (deserFieldsXU XO opts c doc rest) fun ys => .ok ((name, y) :: ys)
+      | .error e => .error e
+termination_by structural fs => fs
 end
 
 /-- `Deserializer(cls).deserialize(doc)` -/
@@ -339,9 +427,38 @@ def deserializeX (XO : XOracles) (opts : DeserOpts) (cls : XDecl) (doc : PyVal) 
   match cls, doc with
   | .struct c fields, .dict kvs => deserX XO opts false (.struct c fields) (.dict kvs)
   | .struct _ _, _ => .error .typeErr
+  | .structU c fields, .dict kvs => deserX XO opts false (.structU c fields) (.dict kvs)
+  | .structU _ _, _ => .error .typeErr
   | _, _ => .error (.other "not-a-class")
 
 /-- `Serializer(x).serialize()` -/
 def serializeX (XO : XOracles) (cls : XDecl) (x : PyVal) : R PyVal := serX XO cls x
+
+/-! ### compact single-field wrappers -/
+
+/-- the single field of a compact wrapper class: exactly one field, required, additional properties off -/
+def xCompactField : XDecl → Option (String × XDecl)
+  | .struct c [(n, x)] => if c.required == [n] && !c.addl then some (n, x) else none
+  | _ => none
+
+/-- `Serializer(x).serialize(compact=True)`: a compact wrapper serializes to the serialized form of its field -/
+def serializeCompactX (XO : XOracles) (cls : XDecl) (v : PyVal) : R PyVal :=
+  match xCompactField cls, v with
+  | some (n, x), .inst _ attrs =>
+    (match lookup n attrs with
+      | some w => serX XO x w
+      | none => .error (.other "AttributeError"))
+  | _, _ => serializeX XO cls v
+
+/-- `Deserializer(cls).deserialize(d)` with compact deserialization on: a document that is not an object is
+    read by the single field of a compact wrapper and handed to the constructor -/
+def deserializeCompactX (XO : XOracles) (opts : DeserOpts) (cls : XDecl) (d : PyVal) : R PyVal :=
+  match cls, d with
+  | .struct _ _, .dict _ => deserializeX XO opts cls d
+  | .struct c fields, d' =>
+    (match xCompactField (.struct c fields) with
+      | some (n, x) => bindE (deserX XO opts c.ignoreNone x d') fun y => constructX XO (.struct c fields) [(n, y)]
+      | none => deserializeX XO opts cls d')
+  | _, _ => deserializeX XO opts cls d
 
 end Typedpy
